@@ -194,21 +194,21 @@ def utcoffset_of(tz, dt):
 
 def localize(tz, dt):
     """pytz: tz.localize(naive dt) -> aware datetime holding the variant in force"""
-    from .cal import SDateTime, _raw_datetime, dt_fields, dt_tz, dt_wall_us
+    from .cal import dt_tz, dt_wall_us, with_tz
 
     if dt_tz(dt) is not None:
         raise ValueError("Not naive datetime (tzinfo is already set)")
     f = fixed_offset_us(tz)
     if f is not None:
-        return _raw_datetime(*dt_fields(dt), tz)
+        return with_tz(dt, tz)
     zone = tz.zone_obj if isinstance(tz, SVariant) else tz
     if not isinstance(zone, SZone):
         zone = abstract_zone(zone)
     w = dt_wall_us(dt)
     i = _loc(zone.zid, w)
     if zone.kind == "pytz":
-        return SDateTime(*dt_fields(dt), SVariant(zone, w - i))
-    return SDateTime(*dt_fields(dt), zone)
+        return with_tz(dt, SVariant(zone, w - i))
+    return with_tz(dt, zone)
 
 
 _abstracted = {}
@@ -227,18 +227,13 @@ def abstract_zone(tz):
 
 def datetime_from_wall_us(wall, tz):
     """the datetime whose wall clock is `wall` microseconds (ordinal based); OverflowError outside"""
-    import datetime
+    from .cal import MAXORD, SDateTime, _fields_from_wall, _raw_datetime, _rng
 
-    from .cal import MAXORD, _date_from_ordinal, _raw_datetime
-
-    o = wall // DAY_US
-    rem = wall % DAY_US
-    if not (1 <= o) or not (o <= MAXORD):
+    if not _rng(DAY_US, wall, (MAXORD + 1) * DAY_US - 1):
         raise OverflowError("date value out of range")
-    d = _date_from_ordinal(o)
-    us = rem % 1000000
-    secs = rem // 1000000
-    return _raw_datetime(d.year, d.month, d.day, secs // 3600, (secs // 60) % 60, secs % 60, us, tz)
+    if isinstance(wall, int):
+        return _raw_datetime(*_fields_from_wall(wall), tz)
+    return SDateTime.from_wall(wall, tz)
 
 
 def astimezone(dt, tz):
